@@ -531,8 +531,17 @@ class SymArr:
         return {"int": "int64", "real": "float", "bool": "bool", "complex": "complex"}.get(self.kind, self.kind)
 
     def long(self):
-        r = self.copy()
-        r.kind = "int"
+        f = self.fn
+
+        def fn(*idx):
+            e = f(*idx)
+            t = lift(e)
+            if z3.is_real(t):
+                # truncation toward zero (exact identity on integer-valued reals: ToInt(ToReal(i)) = i)
+                return Sym(simp(z3.If(t >= 0, z3.ToInt(t), -z3.ToInt(-t))))
+            return e
+
+        r = SymArr(self.shape, fn, "int", self.pylist, name=self.name)
         if hasattr(self, "as_type"):
             r.as_type = self.as_type
         return r
@@ -933,6 +942,24 @@ class SymArr:
         if a or k:
             raise OutOfSubset("min(axis) on symbolic array")
         return self._extreme("min", lambda e, m: e >= m)
+
+    def argsort(self, *a, **k):
+        """TRUSTED: argsort of a 1-d array is a bijection sigma of [0,n) with values non-decreasing along it."""
+        if self.ndim != 1:
+            raise OutOfSubset("argsort of a non-1d symbolic array")
+        ctx = cur()
+        n = lift(self.shape[0])
+        nm = ctx.fresh_name("argsort")
+        SG = z3.Function(nm, z3.IntSort(), z3.IntSort())
+        TAU = z3.Function(nm + "_inv", z3.IntSort(), z3.IntSort())
+        i, j = z3.Int("i!q"), z3.Int("j!q")
+        ctx.assume(z3.ForAll([i], z3.Implies(z3.And(i >= 0, i < n), z3.And(SG(i) >= 0, SG(i) < n, TAU(SG(i)) == i)), patterns=[SG(i)]))
+        ctx.assume(z3.ForAll([i], z3.Implies(z3.And(i >= 0, i < n), z3.And(TAU(i) >= 0, TAU(i) < n, SG(TAU(i)) == i)), patterns=[TAU(i)]))
+        r = SymArr((self.shape[0],), lambda t: Sym(SG(t)), "int", name=nm)
+        r.sigma, r.tau = SG, TAU
+        if hasattr(self, "as_type"):
+            r.as_type = self.as_type
+        return r
 
     def astype(self, dt, copy=True):
         return self.copy()
